@@ -172,6 +172,7 @@ CATALOGUE = [
     ("C02", "c02-filter-no-lock", PL, "                        locked[(right_signal_id.source_id, right_operand)] = \"green\"\n", "                        pass\n", 1, "fire", "filter form"),
     ("C01", "c01-no-condition-colours", PL, "                injected_count = self._inject_condition_wire_colors(placement, injected_count)\n", "", 1, "fire", "C01-R14"),
     ("C02", "c02-colour-default-red", CP, "        if len(colors) == 1:\n            return colors.pop()\n        return \"red\"", "        return \"red\"", 1, "fire", "C02-R11"),
+    ("C15", "c15-params-merged", EL, "        self.parent.param_values = dict(param_values)\n", "        self.parent.param_values.update(param_values)\n", 1, "fire", "C15-R2"),
     ("C19", "c19-dict-order-from-set", CP, "merge_list = sorted(source_merge_edges.keys())", "merge_list = list(source_merge_edges)", 1, "fire", "C19-R1"),
 ]
 
